@@ -27,7 +27,7 @@ RULE = ("virtual tier: case = retries 1..3 (4 in thorough) x timeout {0.5, 1, 2.
         "{reply at 0.4T, empty reply at 0.3T, nothing, reply at 1.5T, two replies at 0.2T/0.6T, ICMP error at 0.5T, connection lost at "
         "0.5T} (all sequences), called directly or through Client.get with configured timeout / retries; generated cases with retries 1..6 and event times at {0.001 .. 0.999, 1.001, 1.5, 3} x timeout; loopback tier: scripted "
         "UDP responder and closed ports on 127.0.0.1 and ::1; both tiers also vary the environment of the call (IPv4 / IPv6 endpoint, "
-        "DEBUG logging of puresnmp.transport on / off); non-trivial = >= 2 attempts and at least one non-reply outcome; distinct = "
+        "DEBUG logging of puresnmp.transport on / off) and the size of the reply (1 .. 65507 octets, the largest UDP payload); non-trivial = >= 2 attempts and at least one non-reply outcome; distinct = "
         "the tuple itself")
 ASSUMPTIONS = [
     "model of asyncio's datagram transport: nothing is delivered after close()/abort(); connection_lost is scheduled by call_soon",
@@ -40,6 +40,15 @@ EXHAUSTIVE = lambda tier: "all outcome sequences over 7 outcomes for retries 1..
 KINDS = ["reply", "empty", "none", "late", "dup", "icmp", "lost"]
 REQUEST = bytes.fromhex("302602010104067075626c6963a019020455aa00110201000201003" "00b300906052b060102010500")
 REPLY = b"\x30\x03REPLY-BYTES\x00\xff"
+MAX_UDP = 65507          # largest UDP payload over IPv4 (65535 - 20 - 8); ::1 carries it as well
+
+
+def reply_of(case):
+    """the reply datagram of a case: the short default or `reply_len` octets (1 .. the largest possible UDP payload)"""
+    n = case.get("reply_len")
+    if not n:
+        return REPLY
+    return (REPLY * (n // len(REPLY) + 1))[:n]
 OID = (1, 3, 6, 1, 2, 1, 1, 5, 0)
 
 
@@ -121,7 +130,10 @@ def run_virtual_case(case) -> Result:
     if via == "client":
         reply = lambda req: agent.handle_or_timeout(req)  # noqa
     else:
-        reply = REPLY
+        reply = reply_of(case)
+        if case.get("reply_len"):
+            classes.append("reply_len=%s" % ("max" if case["reply_len"] >= MAX_UDP else "1" if case["reply_len"] == 1 else "large"
+                                             if case["reply_len"] > 1472 else "other"))
 
     L = vloop.VLoop      # (a callable reply is computed from the request actually sent)
 
@@ -165,13 +177,15 @@ def run_virtual_case(case) -> Result:
     head = "%s(%s, retries=%d, timeout=%r%s) outcomes=%s" % (via, host, retries, T, ", DEBUG logging on" if debug else "", kinds)
 
     def bad(msg):
+        if len(msg) > 700:
+            msg = msg[:500] + " ... " + msg[-150:]
         return Result("%s: %s" % (head, msg), nontrivial, classes)
 
     if errors:
         return bad("exception in an event-loop callback: %s" % errors[0])
     if out[0] == "deadlock":
         return bad("the call can never complete: %s" % out[1])
-    want_reply = REPLY if via != "client" else None
+    want_reply = reply_of(case) if via != "client" else None
     acc = acceptable(retries, T, kinds, want_reply, frs)
     cancel_at = case.get("cancel_at")
     if cancel_at is not None:
@@ -236,7 +250,7 @@ def run_virtual_case(case) -> Result:
                 i, "returned" if out[0] == "ok" else "raised"))
     if errors:
         return bad("exception in an event-loop callback: %s" % errors[0])
-    return Result(None, nontrivial, classes, key=(retries, T, tuple(kinds), via, tuple(frs or ()), case.get("family"), debug))
+    return Result(None, nontrivial, classes, key=(retries, T, tuple(kinds), via, tuple(frs or ()), case.get("family"), debug, case.get("reply_len")))
 
 
 # --------------------------------------------------------------------------
@@ -248,9 +262,10 @@ def _fds():
 
 
 class _Responder(asyncio.DatagramProtocol):
-    def __init__(self, plan, T):
+    def __init__(self, plan, T, reply=REPLY):
         self.plan = list(plan)
         self.T = T
+        self.reply = reply
         self.seen = []
         self.transport = None
 
@@ -263,7 +278,7 @@ class _Responder(asyncio.DatagramProtocol):
         kind = self.plan[i] if i < len(self.plan) else "none"
         loop = asyncio.get_running_loop()
         if kind == "reply":
-            self.transport.sendto(REPLY, addr)
+            self.transport.sendto(self.reply, addr)
         elif kind == "empty":
             # asyncio's sendto() silently ignores empty payloads; use the socket itself
             import socket
@@ -274,10 +289,10 @@ class _Responder(asyncio.DatagramProtocol):
             finally:
                 raw.close()
         elif kind == "late":
-            loop.call_later(1.6 * self.T, lambda: self.transport.is_closing() or self.transport.sendto(REPLY, addr))
+            loop.call_later(1.6 * self.T, lambda: self.transport.is_closing() or self.transport.sendto(self.reply, addr))
         elif kind == "dup":
-            self.transport.sendto(REPLY, addr)
-            self.transport.sendto(REPLY[::-1], addr)
+            self.transport.sendto(self.reply, addr)
+            self.transport.sendto(self.reply[::-1], addr)
 
 
 def run_loopback_case(case) -> Result:
@@ -286,6 +301,9 @@ def run_loopback_case(case) -> Result:
     refused = case.get("refused", False)
     v6 = case.get("family") == 6
     lo = "::1" if v6 else "127.0.0.1"
+    the_reply = reply_of(case)
+    if case.get("reply_len"):
+        classes.append("reply_len=%s" % ("max" if case["reply_len"] >= MAX_UDP else "other"))
     debug = bool(case.get("debug"))
     if v6:
         classes.append("ipv6_endpoint")
@@ -312,7 +330,7 @@ def run_loopback_case(case) -> Result:
             s.close()
             resp = None
         else:
-            tr, resp = await loop.create_datagram_endpoint(lambda: _Responder(kinds, T), local_addr=(lo, 0))
+            tr, resp = await loop.create_datagram_endpoint(lambda: _Responder(kinds, T, the_reply), local_addr=(lo, 0))
             port = tr.get_extra_info("sockname")[1]
         await asyncio.sleep(0)
         base = _fds()
@@ -347,6 +365,8 @@ def run_loopback_case(case) -> Result:
                                                                              "closed port" if refused else kinds)
 
     def bad(msg):
+        if len(msg) > 700:
+            msg = msg[:500] + " ... " + msg[-150:]
         return Result("%s: %s" % (head, msg), nontrivial, classes)
 
     if errors:
@@ -367,12 +387,12 @@ def run_loopback_case(case) -> Result:
     answered = [i for i, k in enumerate(kinds[:retries]) if k in ("reply", "dup", "empty")]
     late_ok = [i for i, k in enumerate(kinds[:retries]) if k == "late" and (i + 1.6) * T < retries * T
                and (not answered or i + 1.6 < answered[0])]
-    if late_ok and out == ("ok", REPLY) and len(seen) <= retries:
+    if late_ok and out == ("ok", the_reply) and len(seen) <= retries:
         # one socket for all attempts: a reply that is late for its own attempt legitimately answers a later one
         return Result(None, nontrivial, classes + ["late_reply_accepted_on_shared_socket"])
     if answered:
         i = answered[0]
-        want = b"" if kinds[i] == "empty" else REPLY
+        want = b"" if kinds[i] == "empty" else the_reply
         if out != ("ok", want):
             return bad("outcome %r, expected the reply %r of attempt %d" % (out, want, i))
         if len(seen) != i + 1:
@@ -419,6 +439,15 @@ class _Seqs:
                                        debug=debug)
 
 
+class _Sizes:
+    """reply sizes 1 .. the largest UDP payload, as first answer and after an unanswered attempt"""
+
+    def __iter__(self):
+        for n in (1, 2, 126, 127, 128, 255, 256, 484, 1472, 1473, 4096, 8192, 16384, 32768, 65000, 65505, 65506, MAX_UDP):
+            for kinds in (["reply", "none"], ["none", "reply"], ["late", "dup"], ["icmp", "reply"]):
+                yield dict(tier="virtual", retries=2, timeout=1, kinds=kinds, via="send_udp", reply_len=n)
+
+
 LOOPBACK_PLANS = [
     (1, ["reply"]), (2, ["none", "reply"]), (3, ["none", "none", "reply"]), (2, ["none", "none"]), (1, ["none"]),
     (2, ["late", "reply"]), (2, ["dup", "none"]), (3, ["none", "dup", "none"]), (2, ["empty", "reply"]),
@@ -437,6 +466,9 @@ class _Loop:
         for family, debug in ((4, True), (6, False), (6, True)):
             for r, kinds in plans[:3]:
                 yield dict(tier="loopback", retries=r, timeout=T, kinds=kinds, family=family, debug=debug)
+        for family in (4, 6):
+            for n in (1, 1473, MAX_UDP):
+                yield dict(tier="loopback", retries=2, timeout=T, kinds=["none", "reply"], family=family, reply_len=n)
         for r in range(1, refused_n + 1):
             yield dict(tier="loopback", retries=r, timeout=T, kinds=["none"] * r, refused=True)
 
@@ -448,7 +480,8 @@ def virtual_cases(draw):
                 kinds=draw(st.lists(st.sampled_from(KINDS), min_size=r, max_size=r)),
                 fr=draw(st.lists(st.sampled_from([0.001, 0.25, 0.5, 0.9, 0.999, 1.001, 1.5, 3.0]), min_size=r, max_size=r)),
                 via=draw(st.sampled_from(["send_udp", "send_udp", "client"])),
-                family=draw(st.sampled_from([4, 4, 6])), debug=draw(st.sampled_from([False, False, True])))
+                family=draw(st.sampled_from([4, 4, 6])), debug=draw(st.sampled_from([False, False, True])),
+                reply_len=draw(st.sampled_from([0, 0, 1, 2, 127, 128, 484, 1472, 1473, 8192, 65506, MAX_UDP])))
 
 
 @st.composite
@@ -467,7 +500,8 @@ def loop_cases(draw):
     return dict(tier="loopback", retries=r, timeout=draw(st.sampled_from([0.03, 0.05, 0.08])),
                 kinds=draw(st.lists(st.sampled_from(["reply", "none", "none", "late", "dup", "empty"]), min_size=r, max_size=r)),
                 refused=draw(st.integers(0, 5)) == 0,
-                family=draw(st.sampled_from([4, 4, 6])), debug=draw(st.sampled_from([False, False, True])))
+                family=draw(st.sampled_from([4, 4, 6])), debug=draw(st.sampled_from([False, False, True])),
+                reply_len=draw(st.sampled_from([0, 0, 1, 1472, 9000, MAX_UDP])))
 
 
 def units(tier, seed):
@@ -484,6 +518,7 @@ def units(tier, seed):
         us.append(Unit("virtual-env-r%d" % r, enumeration_unit,
                        cases=_Seqs(r, [1], ["send_udp", "client"], 0, 1, env=((4, True), (6, False), (6, True))),
                        label="virtual-env-r%d" % r, sample_every=97))
+    us.append(Unit("virtual-sizes", enumeration_unit, cases=_Sizes(), label="virtual-sizes", sample_every=13))
     for sh in range(2 if tier == "quick" else 8):
         us.append(Unit("virtual-hyp-%d" % sh, hypothesis_unit, strategy=virtual_cases(), examples=300 if tier == "quick" else 5000,
                        seed=shard_seed(seed, 40 + sh), label="virtual-hyp-%d" % sh))
